@@ -47,7 +47,8 @@ def glued_template(rng):
         parts.append(opened.pop())
     # endings: template code directly before surplus trailing blanks / blank lines (where LT01/LT12 delete whitespace)
     if rng.random() < 0.5:
-        parts.append(rng.choice(["{% if flag %} and b = 2{% endif %}", "{# trailing comment #}", "{{ empty }}"]))
+        parts.append(rng.choice(["", " ", "\n  ", "\n"]))
+        parts.append(rng.choice(["{% if flag %} and b = 2{% endif %}", "{# trailing comment #}", "{{ empty }}", "{{ undefined_thing }}", "{{ '' }}"]))
         parts.append(rng.choice(["", "   ", " "]))
     parts.append(rng.choice(["\n", "", "\n\n", "\n\n\n"]))
     return "".join(parts), ctx
@@ -178,7 +179,7 @@ def run(ctx, prove=True):
                     "explicit source fixes (JJ01) are exempt by the property; whitespace inside tags is ignored only when JJ01 is enabled"]
     guard_correspondence(ctx, ctx.budget(150, 4000))
     extra_runs(ctx, ctx.budget(90, 3000))
-    fixchecks.run_universe(ctx, PROP, ["all", "layout"], ctx.budget(60, 10 ** 9), WHAT, ["jinja"])
+    fixchecks.run_universe(ctx, PROP, ["all", "layout"], ctx.budget(60, 10 ** 9), WHAT, ["jinja", "jpad"])
 
 
 def search(ctx):
